@@ -28,6 +28,13 @@ static inline qstr qstr_arg1(qstr fmt, qstr a, bool fixed_text) { qstr r = __CPR
 static inline qstr qstr_arg2(qstr fmt, qstr a, qstr b, bool fixed_text) { qstr r = __CPROVER_uninterpreted_str_arg2(fmt, a, b); __CPROVER_assume(!fixed_text || r != 0); return r; }
 static inline qstr qstr_append_char(qstr a, quint16 c) { qstr r = __CPROVER_uninterpreted_str_append_char(a, c); __CPROVER_assume(r != 0); return r; }
 
+/* QString::toUtf8 and QCryptographicHash::hash: uninterpreted functions of their operands; the encoding of a non-empty string and every
+   digest are non-empty (A-HASH: a cryptographic digest has a fixed positive length) */
+qbytes __CPROVER_uninterpreted_utf8_encode(qstr s);
+qbytes __CPROVER_uninterpreted_hash(qbytes b, int algorithm);
+static inline qbytes qstr_toUtf8(qstr s) { if (s == 0) return 0; qbytes r = __CPROVER_uninterpreted_utf8_encode(s); __CPROVER_assume(r != 0); return r; }
+static inline qbytes qbytes_hash(qbytes b, int algorithm) { qbytes r = __CPROVER_uninterpreted_hash(b, algorithm); __CPROVER_assume(r != 0); return r; }
+
 /* QByteArray::split(sep) / QString::fromUtf8: uninterpreted functions of the bytes (A-SPLIT: split yields at least one part; part i and the
    number of parts depend only on the bytes and the separator) */
 int __CPROVER_uninterpreted_bytes_split_count(qbytes b, int sep);
